@@ -135,6 +135,20 @@ class MutationAnalysis:
                 return self.returns_float.get(r.obj.qualname, False)
         return False
 
+    POSITION_FUNCS = {"arange", "argsort", "argmax", "argmin", "argwhere", "flatnonzero", "nonzero", "searchsorted"}
+
+    def _is_position_expr(self, fi: FuncInfo, e, depth: int = 0) -> bool:
+        """An expression whose values are array positions (platform integers): np.arange(..), x.argsort(), np.argmax(..),
+        or a local bound once to one of them."""
+        if isinstance(e, ast.Call):
+            nm = e.func.attr if isinstance(e.func, ast.Attribute) else (e.func.id if isinstance(e.func, ast.Name) else "")
+            return nm in self.POSITION_FUNCS
+        if isinstance(e, ast.Name) and depth < 2:
+            defs = [n.value for n in ast.walk(fi.node) if isinstance(n, ast.Assign) and len(n.targets) == 1 and isinstance(n.targets[0], ast.Name)
+                    and n.targets[0].id == e.id]
+            return len(defs) == 1 and self._is_position_expr(fi, defs[0], depth + 1)
+        return False
+
     def _is_tracked_param(self, fi: FuncInfo, p: str) -> bool:
         """Array / list parameters (C20 speaks of 'array and list arguments')."""
         if p == "self":
@@ -482,7 +496,11 @@ class MutationAnalysis:
                 while isinstance(b, ast.Subscript):
                     b = b.value
                 if isinstance(b, ast.Name) and b.id in self._like and value_node is not None:
-                    if self._is_float_expr(fi, value_node, self.float_names.get(fi.qualname, set())):
+                    if self._is_position_expr(fi, value_node):
+                        emit("dtype", self._like[b.id], t,
+                             "positions (np.arange / argsort / argmax ...) stored into an array that inherits the argument's dtype: a narrow value dtype "
+                             "(uint8, int8, bool, float16) cannot hold the positions 0..n-1")
+                    elif self._is_float_expr(fi, value_node, self.float_names.get(fi.qualname, set())):
                         emit("dtype", self._like[b.id], t,
                              "float-valued store into an array that inherits the argument's dtype (int64 input truncates)")
                     else:
